@@ -118,7 +118,12 @@ impl std::fmt::Debug for RegexNode {
     }
 }
 
-fn do_firstpos(re: &RegexNode, arena: &[RegexNode], result: &mut RoaringBitmap) {
+fn do_firstpos(
+    re: &RegexNode,
+    arena: &[RegexNode],
+    visited: &mut RoaringBitmap,
+    result: &mut RoaringBitmap,
+) {
     match re {
         RegexNode::Epsilon => {}
         RegexNode::Subword(position) => {
@@ -136,13 +141,17 @@ fn do_firstpos(re: &RegexNode, arena: &[RegexNode], result: &mut RoaringBitmap) 
         RegexNode::Or(children) => {
             for child_id in children {
                 let child = &arena[*child_id];
-                do_firstpos(child, arena, result);
+                if visited.insert(child_id.0 as u32) {
+                    do_firstpos(child, arena, visited, result);
+                }
             }
         }
         RegexNode::Cat(children) => {
             for child_id in children {
                 let child = &arena[*child_id];
-                do_firstpos(child, arena, result);
+                if visited.insert(child_id.0 as u32) {
+                    do_firstpos(child, arena, visited, result);
+                }
                 if !child.nullable(arena) {
                     break;
                 }
@@ -150,7 +159,9 @@ fn do_firstpos(re: &RegexNode, arena: &[RegexNode], result: &mut RoaringBitmap) 
         }
         RegexNode::Star(child_id) => {
             let child = &arena[*child_id];
-            do_firstpos(child, arena, result);
+            if visited.insert(child_id.0 as u32) {
+                do_firstpos(child, arena, visited, result);
+            }
         }
         RegexNode::EndMarker(position) => {
             result.insert(*position);
@@ -158,7 +169,12 @@ fn do_firstpos(re: &RegexNode, arena: &[RegexNode], result: &mut RoaringBitmap) 
     }
 }
 
-fn do_lastpos(re: &RegexNode, arena: &[RegexNode], result: &mut RoaringBitmap) {
+fn do_lastpos(
+    re: &RegexNode,
+    arena: &[RegexNode],
+    visited: &mut RoaringBitmap,
+    result: &mut RoaringBitmap,
+) {
     match re {
         RegexNode::Epsilon => {}
         RegexNode::Subword(position) => {
@@ -176,13 +192,17 @@ fn do_lastpos(re: &RegexNode, arena: &[RegexNode], result: &mut RoaringBitmap) {
         RegexNode::Or(children) => {
             for child_id in children {
                 let child = &arena[*child_id];
-                do_lastpos(child, arena, result);
+                if visited.insert(child_id.0 as u32) {
+                    do_lastpos(child, arena, visited, result);
+                }
             }
         }
         RegexNode::Cat(children) => {
             for child_id in children.iter().rev() {
                 let child = &arena[*child_id];
-                do_lastpos(child, arena, result);
+                if visited.insert(child_id.0 as u32) {
+                    do_lastpos(child, arena, visited, result);
+                }
                 if !child.nullable(arena) {
                     break;
                 }
@@ -190,7 +210,9 @@ fn do_lastpos(re: &RegexNode, arena: &[RegexNode], result: &mut RoaringBitmap) {
         }
         RegexNode::Star(child_id) => {
             let child = &arena[*child_id];
-            do_lastpos(child, arena, result);
+            if visited.insert(child_id.0 as u32) {
+                do_lastpos(child, arena, visited, result);
+            }
         }
         RegexNode::EndMarker(position) => {
             result.insert(*position);
@@ -274,14 +296,18 @@ impl RegexNode {
     }
 
     fn firstpos(&self, arena: &[RegexNode]) -> RoaringBitmap {
+        // `X...` is Cat[X, Star(X)] with X shared, so the arena is a DAG: visit every node once,
+        // or nested repetitions take time exponential in their depth
+        let mut visited: RoaringBitmap = Default::default();
         let mut result: RoaringBitmap = Default::default();
-        do_firstpos(self, arena, &mut result);
+        do_firstpos(self, arena, &mut visited, &mut result);
         result
     }
 
     fn lastpos(&self, arena: &[RegexNode]) -> RoaringBitmap {
+        let mut visited: RoaringBitmap = Default::default();
         let mut result: RoaringBitmap = Default::default();
-        do_lastpos(self, arena, &mut result);
+        do_lastpos(self, arena, &mut visited, &mut result);
         result
     }
 
